@@ -52,6 +52,14 @@ def cases(tier: str, seed: int) -> list[dict]:
             if len(ev) % 3 == 0:
                 ev.append({"a": "SpatialIndex", "p": p})      # the older (deprecated, still public) spatial_index accessor
         out.append({"src": "gen", "world": w, "events": ev})
+    # a grid with more cells than a byte can count; cells addressed through native indexes held as narrow integers
+    for conv in ("cf2d", "shoc_standard"):
+        w = GW.structured_world(conv, 12, 12, shape="rect", **({"bounds": True} if conv == "cf2d" else {}))
+        CD.add_data_vars(w, rng, rich=False)
+        w["via"] = "memory"
+        ns = [0, 5, 100, 127, 128, 129, 131, 143]
+        ev = [{"a": "Polygons"}] + [{"a": "SelectIndex", "n": n, "kind": "face", "api": "via_ravel_narrow"} for n in ns]
+        out.append({"src": "gen", "world": w, "events": ev})
     return out
 
 
